@@ -147,7 +147,9 @@ class Run:
                 out_lines.append(f"  note: {note}")
             import math
             need = math.ceil(0.7 * r.floor)      # floor = count confirmed by reading; 30% slack so that a refactor that merges
-            if len(r.obligations) < need:        # or splits a few sites is judged on its merits instead of aborting the analysis
+            if len(r.obligations) < need and not v:   # or splits a few sites is judged on its merits instead of aborting the analysis
+                # (a rule that reports a violation and then stops enumerating - its anchor construct is gone - is judged by that
+                # violation, which names the construct, not by the count)
                 floors_broken.append(f"{r.rule}: {len(r.obligations)} obligations < {need} (70% of the {r.floor} confirmed by reading)")
             for o in v:
                 hit = next((k for k in known if k.get("rule") == o.rule
